@@ -41,7 +41,7 @@ TAU = 3e-9
 
 
 def cases(tier, seed):
-    reps = 5 if tier == "quick" else 120
+    reps = 5 if tier == "quick" else 800
     out = []
     for kind in gen.KINDS:
         for n in range(1, 5):
